@@ -116,7 +116,8 @@ impl Range {
                     return Err(error)
                 }
                 let num_usize : u64 = boxed_parse.unwrap();
-                range.start = filelength - num_usize;
+                // a suffix longer than the file selects the whole file
+                range.start = filelength.saturating_sub(num_usize);
                 range.end = filelength;
             }
 
